@@ -109,3 +109,16 @@ def _m_mfdc_noncons(case, v, args):
     return (v.get("kind") == "invalid_input_not_rejected" and case.get("cls") == "MinFlowDecompCycles"
             and case.get("origin") == "edge" and any(m in ("nonconserving", "nonconserving_quarter") for m in (case.get("muts") or []))
             and all(m in ("nonconserving", "nonconserving_quarter", "k_frac") for m in case.get("muts")))
+
+
+@matcher("min_gen_set_bound_false_infeasible_at_multiplicity_37719")
+def _m_mgs_mult(case, v, args):
+    """MGS-MULT: MinFlowDecompCycles(weight_type=float, use_min_gen_set_lowerbound=True) asks MinGenSet for a generating set with
+    max_multiplicity = largest flow value. On the recorded instance (self-loop carrying 37719 = 27 x 1397) the integer x continuous
+    product rows of the k = 2 model (16-bit multipliers, products of 1e8-1e9 against tolerances of 1e-9) are declared infeasible with
+    presolve on and off, the bound becomes 3 and a 3-walk answer is returned although the reference run exhibits 2 walks. The check
+    establishes the cause (kind lower_bound_above_optimum: the lower bound the model used exceeds the exhibited optimum, and the
+    answer has exactly that size); only this instance with the generating-set options matches."""
+    return (v.get("kind") == "lower_bound_above_optimum" and case.get("cls") == "MinFlowDecompCycles"
+            and case.get("hand_mfd") == "cyc:selfloops_multiplicity_37719" and ("mingenset" in (v.get("opt") or "") or "mgs" in (v.get("opt") or ""))
+            and v.get("lower_bound_used") == 3)
